@@ -55,3 +55,28 @@ package rpm
 //
 //@ inline func asRPMFile(content *files.Content, fileType rpmpack.FileType) (file *rpmpack.RPMFile, err error)
 //@   assume [C06 C08] ghost-source-is-optional: implies(content.Type == "ghost", ufBool("fsOptional", content.Source))
+//
+//@ spec func archOf(arch, override string) string {
+//@     if override != "" { return override }
+//@     return docArch(arch)
+//@ }
+//
+//@ spec func rpmRelease(release string) string {
+//@     if release == "" { return "1" }
+//@     return release
+//@ }
+//
+//@ func setDefaults(info *nfpm.Info) (result *nfpm.Info)
+//@   requires info != nil
+//@   ensures [C02 C15] documented-table-or-override: implies(old(info.RPM.Arch) != "" || old(info.Arch) != "all", info.Arch == archOf(old(info.Arch), old(info.RPM.Arch)))
+//@   ensures [C02] all-is-noarch: implies(old(info.RPM.Arch) == "" && old(info.Arch) == "all", info.Arch == "noarch")
+//@   ensures [C14 C15] release-default: info.Release == rpmRelease(old(info.Release))
+//@   ensures [C11 C15] idempotent: implies(old(info.RPM.Arch) == "", docArch(info.Arch) == info.Arch && info.Arch != "all") && rpmRelease(info.Release) == info.Release
+//@   ensures [C11] same-object: result == info
+//@   modifies [C11 C12] &info.Arch, &info.Release
+//
+//@ func (r *RPM) ConventionalFileName(info *nfpm.Info) (result string)
+//@   requires info != nil
+//@   ensures [C15 C14 C02] name: result == old(info.Name) + "-" + rpmVersion(old(info.Version), old(info.Prerelease), old(info.VersionMetadata)) + "-" + rpmRelease(old(info.Release)) + "." + info.Arch + ".rpm"
+//@   ensures [C15] extension: strings.HasSuffix(result, r.ConventionalExtension())
+//@   modifies [C11 C12] &info.Arch, &info.Release
